@@ -297,12 +297,65 @@ def judge09 (kv : KV) : Verdict :=
     { specfails := sf, nontrivial := a.bd.text != hexBytes (kv.get "file"), tags := if kv.get "macro" != "" then ["macro"] else ["dot"] }
   | _, _ => { bad := some "missing result" }
 
+/-! ### C19: the emulated terminal against a full repaint, the window and the cursor cell -/
+def parseRows (s : String) : List (List String) :=
+  if s == "" then [] else (s.splitOn ",").map (fun r => if r == "-" then [] else r.splitOn ".")
+
+/-- printable ASCII line (no tabs): its cells are its characters -/
+def asciiLine (l : Line) : Bool := l.all (fun c => 32 ≤ c && c < 127)
+
+def judge19 (c : Case) : List String × Nat :=
+  let bs := c.impl.filter (·.mark == "B")
+  let xrows := (c.rows - 1).toNat
+  let cols := c.cols.toNat
+  let rec go : List ImplBd → Nat → List String → Nat → List String × Nat
+    | [], _, errs, n => (errs, n)
+    | r :: rest, i, errs, n =>
+      if r.screen == "-" || r.screen == "" then go rest (i + 1) errs n else
+      let a := parseRows r.screen
+      let b := parseRows r.repaint
+      let buf := bufOf r.bd.text
+      let errs := match (List.range (max a.length b.length)).find? (fun k => a.getD k [] != b.getD k []) with
+        | some k => errs ++ [s!"clause=screen_equals_full_repaint boundary#{i} row={k} xtop={r.bd.xtop} xleft={r.bd.xleft} shown={".".intercalate (a.getD k [])} repaint={".".intercalate (b.getD k [])}"]
+        | none => errs
+      -- the window holds the cursor line
+      let errs := if buf.isEmpty || (r.bd.xtop ≤ r.bd.xrow && r.bd.xrow < r.bd.xtop + xrows) then errs
+        else errs ++ [s!"clause=window_contains_cursor boundary#{i} xrow={r.bd.xrow} xtop={r.bd.xtop} rows={xrows}"]
+      -- the repaint itself against the buffer, for printable ASCII lines
+      let errs := match (List.range xrows).find? (fun k =>
+          let li := r.bd.xtop.toNat + k
+          match buf[li]? with
+          | some l =>
+            if !asciiLine l then false else
+            let want := ((l.drop r.bd.xleft.toNat).take cols).map (fun ch => hexOfByte ch)
+            let want := (want.reverse.dropWhile (· == "20")).reverse
+            b.getD k [] != want
+          | none => if buf.isEmpty && k == 0 then false else (li ≥ buf.length && b.getD k [] != (if li == 0 || r.bd.xleft != 0 then [] else ["7e"]))) with
+        | some k => errs ++ [s!"clause=rows_show_the_window boundary#{i} row={k} xtop={r.bd.xtop} xleft={r.bd.xleft} repaint={".".intercalate (b.getD k [])}"]
+        | none => errs
+      -- the terminal cursor is on a cell of the cursor character
+      let errs := match buf[r.bd.xrow.toNat]? with
+        | some l =>
+          if !plainLine l || l.any (fun ch => ch > 127) then errs else
+          match r.cursor.splitOn "," with
+          | [cr, cc] =>
+            let cr := intOf cr; let cc := intOf cc
+            let lo : Int := startCol l r.bd.xoff.toNat
+            let hi : Int := if l.isEmpty then 1 else startCol l (r.bd.xoff.toNat + 1)
+            if cr == r.bd.xrow - r.bd.xtop && lo ≤ cc + r.bd.xleft && cc + r.bd.xleft < max hi (lo + 1) then errs
+            else errs ++ [s!"clause=cursor_on_its_character cause={if lo < r.bd.xleft then "sticky_column_keeps_xleft_beyond_the_cursor" else "other"} boundary#{i} cursor={cr},{cc} xrow={r.bd.xrow} xoff={r.bd.xoff} xtop={r.bd.xtop} xleft={r.bd.xleft} cells={lo}..{hi}"]
+          | _ => errs
+        | none => errs
+      let errs := if r.bad == "0" || r.bad == "" then errs else errs ++ [s!"clause=terminal_stream_wellformed boundary#{i} bad={r.bad}"]
+      go rest (i + 1) errs (n + 1)
+  go bs 0 [] 0
+
 /-- the stream judge: model correspondence plus the property's reference judgement -/
 def judge (mode : Nat) (kv : KV) : Verdict :=
   let base := ViD.judge 0 kv
   let c := parseCase kv
   if c.crashed then base else
-  let (errs, n, m) := if mode == 7 then (let (e, n) := judge07 c; (e, n, 0)) else if mode == 13 then judge13 c else ([], 0, 0)
+  let (errs, n, m) := if mode == 7 then (let (e, n) := judge07 c; (e, n, 0)) else if mode == 13 then judge13 c else if mode == 19 then (let (e, n) := judge19 c; (e, n, 0)) else ([], 0, 0)
   { base with specfails := (errs.take 3).map (fun s => (s.take 400).toString),
               tags := base.tags ++ (List.replicate n "judged") ++ (List.replicate m "found") }
 
